@@ -821,6 +821,9 @@ func decode(packet []byte) (interface{}, error) {
 	case msgUserAuthRequest:
 		msg = new(userAuthRequestMsg)
 	case msgUserAuthSuccess:
+		if len(packet) != 1 {
+			return nil, parseError(msgUserAuthSuccess)
+		}
 		return new(userAuthSuccessMsg), nil
 	case msgUserAuthFailure:
 		msg = new(userAuthFailureMsg)
